@@ -376,13 +376,53 @@ pub fn gen_model_ctx(spec: &SchemeSpec, size: usize, allow_missing_mandatory: bo
 
 /// Materialise a model context as a real one (values through the checked constructors and
 /// `set_field_value`, list state through `get_list_matcher_mut(..).as_any_mut()`).
+///
+/// *How* a context came to hold its values is part of its history and a tape choice: filled directly; filled through
+/// a `borrow_with` guard that is then dropped; filled, cleared and filled again; every field first given another
+/// well-typed value and then overwritten; filled in a scratch context that is then cloned or taken. Whatever the
+/// route, the result must be the same context.
 pub fn materialise<'a>(spec: &SchemeSpec, scheme: &Scheme, m: &ModelCtx) -> ExecutionContext<'a> {
     let mut ctx = ExecutionContext::new(scheme);
-    apply_model(spec, scheme, m, &mut ctx);
+    match choose_w(&[8, 2, 1, 1, 1, 1], "ctx.route") {
+        0 => apply_model(spec, scheme, m, &mut ctx),
+        1 => {
+            crate::kernel::count("ctx.route.borrow_guard");
+            let mut guard = ctx.borrow_with(7u8);
+            apply_model(spec, scheme, m, &mut guard);
+        }
+        2 => {
+            crate::kernel::count("ctx.route.refilled_after_clear");
+            apply_model(spec, scheme, m, &mut ctx);
+            ctx.clear();
+            apply_model(spec, scheme, m, &mut ctx);
+        }
+        3 => {
+            crate::kernel::count("ctx.route.overwritten");
+            for (i, v) in m.values.iter().enumerate() {
+                if v.is_some() {
+                    let field = scheme.get_field(&spec.fields[i].0).expect("field");
+                    ctx.set_field_value(field, gen_value(&spec.fields[i].1, 2).to_lhs().expect("well-typed")).expect("set well-typed value");
+                }
+            }
+            apply_model(spec, scheme, m, &mut ctx);
+        }
+        4 => {
+            crate::kernel::count("ctx.route.cloned");
+            let mut scratch = ExecutionContext::<u8>::new_with(scheme, || 3u8);
+            apply_model(spec, scheme, m, &mut scratch);
+            ctx = scratch.clone_with(());
+        }
+        _ => {
+            crate::kernel::count("ctx.route.taken");
+            let mut scratch = ExecutionContext::<u8>::new_with(scheme, || 3u8);
+            apply_model(spec, scheme, m, &mut scratch);
+            ctx = scratch.take_with(|_| ());
+        }
+    }
     ctx
 }
 
-pub fn apply_model(spec: &SchemeSpec, scheme: &Scheme, m: &ModelCtx, ctx: &mut ExecutionContext<'_>) {
+pub fn apply_model<U>(spec: &SchemeSpec, scheme: &Scheme, m: &ModelCtx, ctx: &mut ExecutionContext<'_, U>) {
     for (i, v) in m.values.iter().enumerate() {
         if let Some(v) = v {
             let field = scheme.get_field(&spec.fields[i].0).expect("field");
